@@ -11,13 +11,13 @@ import (
 type node interface{}
 
 type (
-	nAlt    struct{ alts []node }        // Disjunction
-	nSeq    struct{ items []node }       // Alternative
-	nChar   struct{ set func(rune) bool } // single code point matcher
-	nStart  struct{}
-	nEnd    struct{}
-	nWordB  struct{ neg bool }
-	nGroup  struct {
+	nAlt   struct{ alts []node }         // Disjunction
+	nSeq   struct{ items []node }        // Alternative
+	nChar  struct{ set func(rune) bool } // single code point matcher
+	nStart struct{}
+	nEnd   struct{}
+	nWordB struct{ neg bool }
+	nGroup struct {
 		sub node
 		cap int // 0 = non-capturing
 	}
